@@ -36,7 +36,8 @@ PROPS["C20"] = dict(
          "number (1..3) of threads that call reset() at once afterwards. Per round: constructions == 1, every thread got "
          "the same address from both of its calls, reads the values the constructor wrote last, destructions == 1 after "
          "the reset. (b) managed thread: a case = 1..3 ManagedThread objects alive together, each with d1 (creating thread "
-         "held after the real pthread_create returned, 0..500 us), d2 (new thread held before its start routine, 0..500 us), "
+         "held after the real pthread_create returned, 0..500 us, 1 in 25: up to 4 ms), d2 (new thread held before its start "
+         "routine, same distribution), "
          "observer delay 0..300 us, order (timed / child forced first / creator forced first), blocking or immediately "
          "returning function, join() or join-by-destructor, placement hint, observer = creating thread or a separate thread. "
          "isActive() must be true at both samples taken after the function's 'started' flag was acquired and before the "
